@@ -45,8 +45,15 @@ def utf8_text(n, salt=0):
     return out
 
 
+_DUP = hashlib.shake_128(b"ws-dup-stream").digest(70000)
+
+
 def payload_of(m):
     kind = m.get("kind", "rand")
+    if kind == "dup" and m["bin"] and m["len"] <= len(_DUP):
+        # incompressible in itself, but a prefix of one common stream: a later "dup" message repeats an earlier one, so a context-takeover
+        # compressor refers back across messages over a distance of about the message length (512 .. 32768 octets matter for window sizes)
+        return _DUP[:m["len"]]
     if not m["bin"]:
         return utf8_text(m["len"], m["salt"])
     if kind == "comp":
@@ -116,16 +123,19 @@ def _send_one(d, proto, factory, m, payload):
         raise HarnessError("unknown api " + api)
 
 
-def deflate_offer_setup(copts, sopts):
+def deflate_offer_setup(copts, sopts, params=None):
+    """params (optional dict): req_wb = window the server requests of the client (client_max_window_bits), req_nct = the server requests
+    client_no_context_takeover, offer_wb / offer_nct = what the client requests of the server"""
     from autobahn.websocket.compress import (PerMessageDeflateOffer, PerMessageDeflateOfferAccept,
                                              PerMessageDeflateResponseAccept)
-    copts["perMessageCompressionOffers"] = [PerMessageDeflateOffer()]
+    params = params if isinstance(params, dict) else {}
+    copts["perMessageCompressionOffers"] = [PerMessageDeflateOffer(request_no_context_takeover=bool(params.get("offer_nct")), request_max_window_bits=params.get("offer_wb") or 0)]
     copts["perMessageCompressionAccept"] = lambda resp: PerMessageDeflateResponseAccept(resp)
 
     def saccept(offers):
         for o in offers:
             if isinstance(o, PerMessageDeflateOffer):
-                return PerMessageDeflateOfferAccept(o)
+                return PerMessageDeflateOfferAccept(o, request_no_context_takeover=bool(params.get("req_nct")), request_max_window_bits=params.get("req_wb") or 0)
     sopts["perMessageCompressionAccept"] = saccept
 
 
@@ -138,7 +148,7 @@ class PairRun:
         copts = dict(case.get("copts", {}))
         sopts = dict(case.get("sopts", {}))
         if case.get("compress"):
-            deflate_offer_setup(copts, sopts)
+            deflate_offer_setup(copts, sopts, case.get("compress"))
         self.onopen_sent = {0: False, 1: False}
         chooks = {"onOpen": lambda p: self._from_onopen(0)}
         shooks = {"onOpen": lambda p: self._from_onopen(1)}
